@@ -385,13 +385,18 @@ package stringlib
 // and the position of its last byte.  (strings.Index is external: the
 // obligation is about how its result is turned into positions.)
 //@ func find
-//@   prop C19 C04
+//@   prop C19 C04 C15
 //@   arith int
 //@   requires t != nil && t.Runtime != nil && c != nil && c.GoFunction != nil && c.next != nil && 0 <= c.nArgs && c.nArgs <= len(c.args) && len(c.args) == 4
 //@   modifies everything()
 //@   exits ContextTerminationError
 //@   assert_before_call Push1#3: typeis($v.iface, int64) && $v.AsInt() == int64(si) + int64(i) + 1
 //@   assert_before_call Push1#4: typeis($v.iface, int64) && $v.AsInt() == int64(si) + int64(i) + int64(len(ptn))
+// C15: the literal search (strings.Index) stands in for the matcher only when
+// the pattern cannot mean anything else: the caller asked for a plain search, or
+// the pattern contains none of the magic characters ^$*+?.([%- (nor their
+// closing counterparts).
+//@   assert_before_call Index: plain || forall(k, int, 0 <= k && k < len(ptn) ==> ptn[k] != '^' && ptn[k] != 36 && ptn[k] != '*' && ptn[k] != '+' && ptn[k] != '?' && ptn[k] != '.' && ptn[k] != '(' && ptn[k] != ')' && ptn[k] != '[' && ptn[k] != ']' && ptn[k] != '%' && ptn[k] != '-')
 
 // ---------------------------------------------------------------------------
 // C15: gsub advances correctly over empty matches
